@@ -31,7 +31,7 @@ J == Tr[l]
 ResetStep ==
   /\ role' = InitRole /\ gen' = [a \in Agents |-> 1] /\ rgen' = [a \in Agents |-> 1]
   /\ locals' = Loc /\ remotes' = PreSignal
-  /\ LET r == [a \in Agents |-> AddAllRemotes(<<>>, 0, Loc[a], PreSignal[a], 1, InitRole[a] = "controlling")] IN
+  /\ LET r == [a \in Agents |-> AddAllRemotes(<<>>, J.idBase[a], Loc[a], PreSignal[a], 1, InitRole[a] = "controlling")] IN
        pairs' = [a \in Agents |-> r[a].ps] /\ nextId' = [a \in Agents |-> r[a].id]
   /\ pend' = [a \in Agents |-> {}] /\ sel' = [a \in Agents |-> 0] /\ nomPair' = [a \in Agents |-> 0]
   /\ conn' = [a \in Agents |-> "Checking"] /\ nextTid' = Tid0
